@@ -416,7 +416,10 @@ func c19Gen(r *vRand) c19Case {
 	case 1:
 		cs.Acks = 1
 	}
-	ns := r.Range(0, 6)
+	ns := r.Range(0, 7)
+	if r.Chance(70) {
+		ns = r.Range(3, 7)
+	}
 	for i := 0; i < ns; i++ {
 		op := c19Setup{B: r.Intn(2), R: r.Intn(len(c19Pool))}
 		switch x := r.Intn(100); {
@@ -436,6 +439,9 @@ func c19Gen(r *vRand) c19Case {
 	nt := r.Range(1, 3)
 	for i := 0; i < nt; i++ {
 		res := c19Pool[r.Intn(len(c19Pool))]
+		if res.topic == "denied" && r.Chance(60) {
+			res = c19Pool[r.Intn(3)]
+		}
 		tp := c19Topic{Topic: res.topic}
 		np := r.Range(1, 3)
 		for j := 0; j < np; j++ {
@@ -565,7 +571,7 @@ func c19Coq(cs c19Case, o c19Obs) string {
 }
 
 func TestVerifC19(t *testing.T) {
-	rep := vNewReport("C19", "generated produce requests (1-3 topic entries x 1-3 partition entries incl. duplicates, an ACL-denied topic, undecodable batches; acks -1/1/0) sent through the real handler whose PartitionLeaseManager shares an embedded etcd with a second broker, after a generated lease pre-state (0-6 acquire/release/expire/restart/ReleaseAll calls on both brokers); non-trivial = the request names at least one partition this broker ends up owning and at least one it does not; distinct = distinct cases")
+	rep := vNewReport("C19", "generated produce requests (1-3 topic entries x 1-3 partition entries incl. duplicates, an ACL-denied topic, undecodable batches; acks -1/1/0) sent through the real handler whose PartitionLeaseManager shares an embedded etcd with a second broker, after a generated lease pre-state (0-7 acquire/release/expire/restart/ReleaseAll calls on both brokers); non-trivial = the request names at least one partition this broker ends up owning and at least one it does not; distinct = distinct cases")
 	endpoints := testutil.StartEmbeddedEtcd(t)
 	root, err := clientv3.New(clientv3.Config{Endpoints: endpoints, DialTimeout: 5 * time.Second, Logger: zap.NewNop()})
 	if err != nil {
